@@ -205,11 +205,17 @@ def rule_arity(ctx):
                 file=app.module.rel, function=app.qualname, line=app.lineno)
     # Parser.ast filter loop
     pa = p.func('formulas/parser.py', 'Parser.ast')
-    loops = [n for n in own_nodes(pa) if isinstance(n, ast.For) and any(
-        isinstance(s, ast.Try) for s in n.body)]
+    from ..util import with_helpers
+    loops = []
+    for g_ in with_helpers(ctx, pa):
+        for n in own_nodes(g_):
+            if isinstance(n, ast.For) and any(isinstance(s, ast.Try)
+                                              for s in n.body):
+                loops.append((g_, n))
     if len(loops) != 1:
         raise AnalysisError('Parser.ast: filter loop not recognised')
-    loop = loops[0]
+    pa0 = pa
+    pa, loop = loops[0]
     tr = [s for s in loop.body if isinstance(s, ast.Try)][0]
     rr.instances += 1
     tok_ok = form_ok = False
@@ -234,6 +240,16 @@ def rule_arity(ctx):
                 function=pa.qualname, line=tr.lineno)
     rr.instances += 1
     else_raises = [s for s in loop.orelse if isinstance(s, ast.Raise)]
+    if not else_raises and not any(isinstance(x, ast.Break)
+                                   for x in ast.walk(loop)):
+        # the loop leaves by `return` on success: the statement after it is
+        # what runs when no filter matched
+        for holder in ast.walk(pa.node):
+            for fld in ('body', 'orelse', 'finalbody'):
+                stmts = getattr(holder, fld, None)
+                if isinstance(stmts, list) and loop in stmts:
+                    nxt = stmts[stmts.index(loop) + 1:stmts.index(loop) + 2]
+                    else_raises = [s for s in nxt if isinstance(s, ast.Raise)]
     good = False
     if else_raises and else_raises[-1].exc is not None:
         c = ex.exc_of_expr(pa, else_raises[-1].exc)
@@ -249,10 +265,12 @@ def rule_arity(ctx):
     # single result
     rr.instances += 1
     single = False
-    for n in own_nodes(pa):
-        if isinstance(n, ast.If) and match_pat('len(__b) != 1', n.test) \
-                is not None and any(isinstance(s, ast.Raise) for s in n.body):
-            single = True
+    for g_ in with_helpers(ctx, pa0):
+        for n in own_nodes(g_):
+            if isinstance(n, ast.If) and match_pat('len(__b) != 1', n.test) \
+                    is not None and any(isinstance(s, ast.Raise)
+                                        for s in n.body):
+                single = True
     if single:
         rr.ok('a formula that does not reduce to one expression raises '
               'FormulaError', pa.module.rel)
